@@ -528,51 +528,108 @@ def c09_h(ctx):
             ctx.check(ut >= 2, f, 'U-turn test', 'inner(right - left, momentum_end) >= 0 for both '
                       'ends', 'the no-U-turn condition is not inner(params_right - params_left, '
                       'momentum) >= 0 for both momenta', fn=f, node=f.node)
-    # leapfrog in the base case
+    # leapfrog in the base case: exact normal forms (algebraic rewrites of the same map pass)
+    from .. import symdiff as sd
+    from ..ratfun import Rat, Unsupported
     ex = ctx.ex(bt)
-    P, Mo, ST, G = hp[0], hp[1], hp[3], hp[7]
-    asg = [n for n in own_nodes(bt.node) if isinstance(n, ast.Assign) and
-           isinstance(n.targets[0], ast.Name)]
-    def find(pats):
-        for n in asg:
-            for p in pats:
-                if match(ex.raw(n.value), pattern(p)) is not None:
-                    return n
+    P, Mo, SL, ST, LJ0, TG, G = hp[0], hp[1], hp[2], hp[3], hp[5], hp[6], hp[7]
+    alg = sd.Algebra()
+    q, p_, eps, u, lj0 = (Rat.sym(x) for x in ('q', 'p', 'eps', 'u', 'lj0'))
+
+    def atom(kind, arg):
+        return alg._atom(kind, (arg,), lambda s_: Rat.const(0))
+
+    def leaf(t):
+        if t == ('param', P):
+            return q
+        if t == ('param', Mo):
+            return p_
+        if t == ('param', ST):
+            return eps
+        if t == ('param', SL):
+            return u
+        if t == ('param', LJ0):
+            return lj0
+        if t[0] == 'call' and t[1] == ('param', G) and len(t[2]) == 1:
+            return atom('grad', conv(t[2][0]))
+        if t[0] == 'call' and t[1] == ('param', TG) and len(t[2]) == 1:
+            return atom('target', conv(t[2][0]))
+        if t[0] == 'call' and t[1] == ('global', 'numpy.inner') and len(t[2]) == 2:
+            return conv(t[2][0]) * conv(t[2][1])      # one-dimensional specialisation
+        if t[0] == 'call' and t[1] in (('global', 'numpy.dot'),) and len(t[2]) == 2:
+            return conv(t[2][0]) * conv(t[2][1])
         return None
-    half1 = find(['{m} + 0.5 * {s} * {g}({p})'.format(m=Mo, s=ST, g=G, p=P)])
-    ctx.check(half1 is not None, bt, 'first half step of the momentum',
-              'momentum + 0.5 * step * grad(params)', 'no momentum half step of the form momentum '
-              '+ 0.5 * step * grad_target(params)', fn=bt, node=half1 or bt.node)
-    if half1 is None:
-        return
-    m1 = half1.targets[0].id
-    full = find(['{p} + {s} * {m}'.format(p=P, s=ST, m=m1)])
-    ctx.check(full is not None and ctx.must_precede(bt, [half1], full) if full else False, bt,
-              'full position step', 'params + step * momentum_half',
-              'no position step of the form params + step * momentum_half', fn=bt,
-              node=full or bt.node)
-    if full is None:
-        return
-    p1 = full.targets[0].id
-    half2 = find(['{m} + 0.5 * {s} * {g}({p})'.format(m=m1, s=ST, g=G, p=p1)])
-    ctx.check(half2 is not None and ctx.must_precede(bt, [full], half2) if half2 else False, bt,
-              'second half step of the momentum', 'momentum_half + 0.5 * step * grad(params_new)',
-              'no second momentum half step at the new position', fn=bt, node=half2 or bt.node)
-    lj = find(['target({p}) - 0.5 * np.inner({m}, {m})'.format(p=p1, m=m1)])
-    ctx.check(lj is not None and (half2 is None or ctx.must_precede(bt, [half2], lj)), bt,
-              'joint log density of the new state', 'target(new) - 0.5 |momentum_new|^2',
-              'the joint log density is not target(params_new) - 0.5 * inner(momentum_new, '
-              'momentum_new)', fn=bt, node=lj or bt.node)
-    if lj is not None:
-        ljn = lj.targets[0].id
-        div = find(['log_slicevar < 1000.0 + {}'.format(ljn)])
-        ctx.check(div is not None, bt, 'divergence test', 'log_slicevar < 1000 + log_joint',
-                  'the divergence test is not log_slicevar < 1000 + log_joint', fn=bt,
-                  node=div or bt.node)
-        mh = find(['min(1.0, np.exp({} - log_joint0))'.format(ljn)])
-        ctx.check(mh is not None, bt, 'acceptance statistic', 'min(1, exp(log_joint - log_joint0))',
-                  'the acceptance statistic is not min(1, exp(log_joint - log_joint0))', fn=bt,
-                  node=mh or bt.node)
+
+    def conv(t):
+        return sd.convert(t, alg, leaf)
+    base_rets = [r for r in returns(bt)
+                 if ex.term(r.value)[0] == 'tuple' and len(ex.term(r.value)[1]) == 11 and
+                 any(pol and match(t_, pattern('{} == 0'.format(hp[4]))) is not None
+                     for (t_, pol, _) in ctx.guards(bt, r))]
+    if len(base_rets) != 1:
+        ctx.undecided('base-case return of the tree helper not identified ({})'.format(
+            len(base_rets)))
+    br = base_rets[0]
+    half = Rat.const(sd.Fraction(1, 2))
+    try:
+        items = list(ex.term(br.value)[1])
+        got_q = [conv(items[i]) for i in (0, 2, 4)]
+        got_p = [conv(items[i]) for i in (1, 3)]
+        ph = p_ + half * eps * atom('grad', q)
+        q1 = q + eps * ph
+        p1 = ph + half * eps * atom('grad', q1)
+        ok_q = all(alg.same(g_, q1) for g_ in got_q)
+        ok_p = all(alg.same(g_, p1) for g_ in got_p)
+    except Unsupported as e:
+        ctx.undecided('leapfrog outside the fragment: {}'.format(e))
+    ctx.check(ok_q, bt, 'leapfrog position: q + eps (p + eps/2 grad(q))',
+              'returned as left end, right end and proposal',
+              'the new position of the base case is not q + eps * (p + eps/2 * grad(q))', fn=bt,
+              node=br)
+    ctx.check(ok_p, bt, 'leapfrog momentum: two half steps around the position step',
+              'p + eps/2 grad(q) + eps/2 grad(q_new)',
+              'the new momentum of the base case is not p + eps/2 grad(q) + eps/2 grad(q_new)',
+              fn=bt, node=br)
+    # joint density, slice membership, divergence test, acceptance statistic
+    LJ = atom('target', q1) - half * p1 * p1
+    cmps = []
+    for n_ in own_nodes(bt.node):
+        if isinstance(n_, ast.Compare) and len(n_.ops) == 1 and \
+                any(pol and match(t_, pattern('{} == 0'.format(hp[4]))) is not None
+                    for (t_, pol, _) in ctx.guards(bt, n_)):
+            t = ex.term(n_)
+            if t[0] == 'cmp' and t[1] in ('<', '<='):
+                try:
+                    cmps.append((n_, t[1], conv(t[2]) - conv(t[3])))
+                except Unsupported:
+                    pass
+    in_slice = [c for c in cmps if c[1] == '<=' and alg.same(c[2], u - LJ)]
+    no_div = [c for c in cmps if c[1] == '<' and alg.same(c[2], u - (Rat.const(1000) + LJ))]
+    ctx.check(bool(in_slice), bt, 'slice membership of the new state', 'log_slicevar <= log_joint',
+              'the base case does not count the new state iff log_slicevar <= target(q_new) - '
+              '|p_new|^2 / 2', fn=bt, node=in_slice[0][0] if in_slice else br)
+    ctx.check(bool(no_div), bt, 'divergence test', 'log_slicevar < 1000 + log_joint',
+              'the divergence test is not log_slicevar < 1000 + log_joint', fn=bt,
+              node=no_div[0][0] if no_div else br)
+    okm = False
+    alts = list(items[7][1]) if items[7][0] == 'phi' else [items[7]]
+    rest_zero = all(a in (('const', 0.0), ('const', 0)) for a in alts
+                    if not (a[0] == 'call'))
+    for mh_t in [a for a in alts if a[0] == 'call']:
+      if mh_t[0] == 'call' and mh_t[1] in (('global', 'builtins.min'), ('global', 'min'),
+                                         ('name', 'min'), ('global', 'numpy.minimum')) and \
+            len(mh_t[2]) == 2:
+        a_, b_ = mh_t[2]
+        for (one, e_) in ((a_, b_), (b_, a_)):
+            if one in (('const', 1.0), ('const', 1)) and e_[0] == 'call' and \
+                    e_[1] in (('global', 'numpy.exp'), ('global', 'math.exp')):
+                try:
+                    okm = alg.same(conv(e_[2][0]), LJ - lj0) and rest_zero
+                except Unsupported:
+                    okm = False
+    ctx.check(okm, bt, 'acceptance statistic', 'min(1, exp(log_joint - log_joint0))',
+              'the acceptance statistic of the base case is not min(1, exp(log_joint - '
+              'log_joint0))', fn=bt, node=br)
     # slice variable and initial joint in the main loop
     exn = ctx.ex(nuts)
     asgn = [n for n in own_nodes(nuts.node) if isinstance(n, ast.Assign) and
